@@ -406,7 +406,14 @@ func (e *effEngine) prov(fn *ssa.Function, v ssa.Value) pathSet {
 	case *ssa.Lookup:
 		if _, isMap := t.X.Type().Underlying().(*types.Map); isMap {
 			for _, p := range e.prov(fn, t.X) {
-				out.add(p.add("[]"))
+				q := p.add("[]")
+				if p.kind == rFresh {
+					if stored, ok := st.freshFld[q.String()]; ok && len(stored) > 0 {
+						out.addAll(stored)
+						continue
+					}
+				}
+				out.add(q)
 			}
 		}
 	case *ssa.UnOp:
@@ -631,8 +638,34 @@ func (e *effEngine) buildFreshFld(fn *ssa.Function) {
 	st.freshFld = map[string]pathSet{}
 	for _, b := range fn.Blocks {
 		for _, in := range b.Instrs {
+			if mu, ok := in.(*ssa.MapUpdate); ok {
+				for _, p := range e.prov(fn, mu.Map) {
+					if p.kind != rFresh {
+						continue
+					}
+					k := p.add("[]").String()
+					if st.freshFld[k] == nil {
+						st.freshFld[k] = pathSet{}
+					}
+					st.freshFld[k].addAll(e.prov(fn, mu.Value))
+				}
+				continue
+			}
 			sto, ok := in.(*ssa.Store)
 			if !ok {
+				continue
+			}
+			if ia, isI := sto.Addr.(*ssa.IndexAddr); isI {
+				for _, p := range e.prov(fn, ia.X) {
+					if p.kind != rFresh {
+						continue
+					}
+					k := p.add("[]").String()
+					if st.freshFld[k] == nil {
+						st.freshFld[k] = pathSet{}
+					}
+					st.freshFld[k].addAll(e.prov(fn, sto.Val))
+				}
 				continue
 			}
 			if _, isF := sto.Addr.(*ssa.FieldAddr); !isF {
